@@ -448,8 +448,23 @@ def check(run: Run) -> None:
         if not thr:
             run.finding("C01.f", "build_ranked_graph:push-deps", "push sources with rank dependencies must be rejected", loc=WIRING)
 
+    with run.obligation("C01.g", "K3+K4", "owners that evaluate several dependent child graphs in one cycle keep producers first: reduce_ evaluates its "
+                        "combiner graphs deepest-first (a combiner reads the combiners below it) in one ordered pass (shared with C11.b)"):
+        from . import c11
+        sub = Run("C01", run.tier, run.tree, quiet=True)
+        c11.check(sub)
+        run.evaluations += sub.evaluations
+        run.count(1, "C01.g")
+        for f in sub.findings:
+            if f.rule == "C11.b":
+                run.finding("C01.g", f.key, f.message, f.loc)
+        for e in sub.errors:
+            if e.startswith("C11.b:"):
+                raise AnalysisError("model-mismatch", e)
+
 
 VARIANTS = [
+    {"id": "g-reduce-words-drained-forward", "expect": "C01.g", "edits": [{"file": "src/hgraph/runtime/reduce_node.cpp", "find": "for (std::size_t word_index = candidates.word_count(); word_index-- > 0;)", "replace": "for (std::size_t word_index = 0; word_index < candidates.word_count(); ++word_index)"}]},
     {"id": "d2-revert-fix-failed-cycle-resumed", "expect": "C01.d2", "edits": [{"file": GRAPH, "find": "      !state.evaluation_failed && state.evaluation_cursor != 0 &&\n      state.evaluation_cursor != invalid_cursor;", "replace": "      state.evaluation_cursor != 0 && state.evaluation_cursor != invalid_cursor;"}]},
     {"id": "d2-flag-cleared-before-read", "expect": "C01.d2", "edits": [{"file": GRAPH, "find": "  const bool resuming =\n      !state.evaluation_failed && state.evaluation_cursor != 0 &&\n      state.evaluation_cursor != invalid_cursor;\n\n  state.evaluation_time = evaluation_time;\n  state.evaluation_failed = false;", "replace": "  state.evaluation_failed = false;\n  const bool resuming =\n      !state.evaluation_failed && state.evaluation_cursor != 0 &&\n      state.evaluation_cursor != invalid_cursor;\n\n  state.evaluation_time = evaluation_time;"}]},
     {"id": "d2-nested-failure-not-flagged", "expect": "C01.d2", "edits": [{"file": GRAPH, "find": "            [&] { state.evaluation_failed = true; });", "replace": "            [&] { static_cast<void>(state); });"}]},
